@@ -170,6 +170,76 @@ class ExcVal(AbsVal):
         return f"{self.name}({', '.join(map(repr, self.args))})"
 
 
+class Sentinel(AbsVal):
+    """A unique object() used as a marker (identity semantics)."""
+
+    def __init__(self, name):
+        self.name = name
+
+    def __repr__(self):
+        return f"<object {self.name}>"
+
+    def call_method(self, it, name, args, kwargs):
+        if name in ("__deepcopy__", "__copy__"):
+            return self
+        return NotImplemented
+
+
+class ExtModule(AbsVal):
+    """A standard-library module the interpreter models a few functions of."""
+
+    def __init__(self, name):
+        self.name = name
+
+    def __repr__(self):
+        return f"<module {self.name}>"
+
+    def get_attr(self, it, name):
+        full = f"{self.name}.{name}"
+        if full in STDLIB_FUNCS:
+            return BuiltinFn(full)
+        return Unknown(f"{self.name}.{name}")
+
+
+class Getter(AbsVal):
+    """operator.attrgetter / itemgetter result."""
+
+    def __init__(self, kind, names):
+        self.kind, self.names = kind, names
+
+    def __repr__(self):
+        return f"<{self.kind}getter {self.names}>"
+
+
+class LazyEnum(AbsVal):
+    """enumerate() over a lazy stream."""
+    lazy = True
+
+    def __init__(self, src, start=0):
+        self.src, self.i = src, start
+
+    def __repr__(self):
+        return "<enumerate>"
+
+    def call_method(self, it, name, args, kwargs):
+        if name == "__next__":
+            try:
+                v = self.src.call_method(it, "__next__", [], {})
+            except Raised as r:
+                if r.cls_name() == "StopIteration" and args:
+                    return args[0]
+                raise
+            self.i += 1
+            return (self.i - 1, v)
+        if name == "__iter__":
+            return self
+        return NotImplemented
+
+
+STDLIB_FUNCS = {"itertools.chain", "itertools.chain.from_iterable", "operator.attrgetter", "operator.itemgetter", "functools.reduce",
+                "itertools.islice"}
+
+
 class AIter(AbsVal):
     """Iterator over a concrete sequence of abstract values."""
 
@@ -396,11 +466,24 @@ class Interp:
                             self._globals[gk] = self.ev_in_module(r[1], expr)
                         except (Unsupported, Raised):
                             self._globals[gk] = Unknown(f"global:{name}")
+                    elif isinstance(expr, ast.Call) and isinstance(expr.func, ast.Name) and expr.func.id == "object" and not expr.args:
+                        self._globals[gk] = Sentinel(f"{r[1].name}.{name}")
                     else:
-                        self._globals[gk] = Unknown(f"global:{name}")
+                        # module-level data built by calls (dict/tuple displays with comprehensions, frozenset(...), enum-like
+                        # classes ...): evaluate it abstractly once
+                        try:
+                            self._globals[gk] = self.ev_in_module(r[1], expr)
+                        except (Unsupported, Raised, LoopBound):
+                            self._globals[gk] = Unknown(f"global:{name}")
             return self._globals[gk]
         if isinstance(r, tuple) and r[0] == "module":
             return Unknown(f"module:{r[1].name}")
+        if name in mi.imports:
+            mod, attr = mi.imports[name]
+            if attr is None and mod in ("itertools", "operator", "functools"):
+                return ExtModule(mod)
+            if attr is not None and f"{mod}.{attr}" in STDLIB_FUNCS:
+                return BuiltinFn(f"{mod}.{attr}")
         if name in ("str", "int", "bool", "list", "dict", "set", "tuple", "float", "type", "object", "frozenset"):
             return BuiltinType(name)
         if name in ("Collection", "Iterable", "Sequence", "Mapping"):
@@ -760,6 +843,8 @@ class Interp:
             return Unknown(f"{v.cls.name}.{name}")
         if isinstance(v, BuiltinType) and name == "__name__":
             return v.name
+        if isinstance(v, BuiltinFn) and f"{v.name}.{name}" in STDLIB_FUNCS:
+            return BuiltinFn(f"{v.name}.{name}")
         if isinstance(v, AbsVal):
             r = v.get_attr(self, name)
             if r is not NotImplemented:
@@ -903,9 +988,11 @@ class Interp:
             rest = v.seq[v.pos:]
             v.pos = len(v.seq)
             return rest
+        if isinstance(v, AbsVal) and not isinstance(v, Unknown) and getattr(v, "lazy", False):
+            return list(self.lazy_items(v, label))
         if isinstance(v, AbsVal) and not isinstance(v, Unknown):
             r = v.call_method(self, "__iter__", [], {})
-            if r is not NotImplemented:
+            if r is not NotImplemented and r is not v:
                 return self.iterate(r, label)
         if self.hooks is not None and hasattr(self.hooks, "iterate"):
             r = self.hooks.iterate(self, v, label)
@@ -964,6 +1051,9 @@ class Interp:
             return call_builtin_type(self, fn.name, args, kwargs, node)
         if isinstance(fn, BoundBuiltin):
             return call_builtin_method(self, fn.recv, fn.name, args, kwargs, node)
+        if isinstance(fn, Getter):
+            vals = [(self.get_attr(args[0], n_) if fn.kind == "attr" else self.do_index(args[0], n_)) for n_ in fn.names]
+            return vals[0] if len(vals) == 1 else tuple(vals)
         if isinstance(fn, Unknown):
             self.effect("call-unknown", fn.tag, args, kwargs)
             return Unknown(f"{fn.tag}()")
@@ -1597,7 +1687,35 @@ def call_builtin(it: Interp, name, args, kwargs, node=None):
         return sort_abs(it, it.iterate(args[0]), kwargs, node)
     if name == "enumerate":
         start = args[1] if len(args) > 1 else kwargs.get("start", 0)
-        return AList([(i + start, v) for i, v in enumerate(it.iterate(args[0]))])
+        src = args[0]
+        if isinstance(src, AbsVal) and not isinstance(src, (AList, ASet, ADict, Unknown, AIter)):
+            if not getattr(src, "lazy", False):
+                r = src.call_method(it, "__iter__", [], {})
+                if r is not NotImplemented:
+                    src = r
+            if getattr(src, "lazy", False):
+                return LazyEnum(src, start)
+        return AList([(i + start, v) for i, v in enumerate(it.iterate(src))])
+    if name == "itertools.chain":
+        out = []
+        for a in args:
+            out.extend(it.iterate(a))
+        return AList(out, tag="genexp")
+    if name == "itertools.chain.from_iterable":
+        out = []
+        for a in it.iterate(args[0]):
+            out.extend(it.iterate(a))
+        return AList(out, tag="genexp")
+    if name == "operator.attrgetter":
+        return Getter("attr", list(args))
+    if name == "operator.itemgetter":
+        return Getter("item", list(args))
+    if name == "functools.reduce":
+        seq = it.iterate(args[1])
+        acc = args[2] if len(args) > 2 else seq.pop(0)
+        for x in seq:
+            acc = it.call_value(args[0], [acc, x], {})
+        return acc
     if name == "zip":
         seqs = [it.iterate(a) for a in args]
         return AList([tuple(t) for t in zip(*seqs)])
